@@ -253,12 +253,12 @@ theorem construct_only (c : Cons) (args : List Arg) (e : Option CG) (fuel : Nat)
     · exact valueError_only
   case grid =>
     apply lift; unfold obtainGridOrTorus
-    exact Only.bind (argInts_only _) (fun _ => Only.bind (guard_only _) (fun _ =>
-      Only.ite valueError_only (ext_only _)))
+    exact Only.bind (argInts_only _) (fun _ => Only.bind (guard_only _) (fun _ => Only.bind (guard_only _) (fun _ =>
+      Only.ite valueError_only (ext_only _))))
   case torus =>
     apply lift; unfold obtainGridOrTorus
-    exact Only.bind (argInts_only _) (fun _ => Only.bind (guard_only _) (fun _ =>
-      Only.ite valueError_only (ext_only _)))
+    exact Only.bind (argInts_only _) (fun _ => Only.bind (guard_only _) (fun _ => Only.bind (guard_only _) (fun _ =>
+      Only.ite valueError_only (ext_only _))))
   case completeS =>
     apply lift; unfold obtainCompleteSimple; split
     · exact Only.bind (argInt_only _) (fun _ => Only.bind (guard_only _) (fun _ =>
@@ -318,11 +318,8 @@ theorem construct_only (c : Cons) (args : List Arg) (e : Option CG) (fuel : Nat)
       · have hg' := guard_ok _ _ _ _ hg
         rw [bind_exc] at h
         rcases h with h | ⟨G, mid2, _, h⟩
-        · rcases randomRegular_exc _ _ _ _ _ _ h with ⟨he, _⟩ | ⟨_, hr0⟩ | he
+        · rcases randomRegular_exc _ _ _ _ _ _ h with ⟨he, _⟩ | ⟨he, _⟩
           · exact Or.inl he
-          · exfalso
-            simp only [regularGuard, Bool.and_eq_true, decide_eq_true_eq] at hg'
-            omega
           · exact Or.inr ⟨trivial, he⟩
         · exact absurd h (pure_ne_exc _ _ _)
     · exact valueError_only.mono (fun e he => Or.inl he)
@@ -375,11 +372,11 @@ theorem construct_noForeign (c : Cons) (args : List Arg) (e : Option CG) (fuel :
   case grid =>
     unfold obtainGridOrTorus
     exact NoForeign.bind (argInts_noForeign _) (fun _ => NoForeign.bind (guard_noForeign _) (fun _ =>
-      NoForeign.ite valueError_noForeign (ext_noForeign _)))
+      NoForeign.bind (guard_noForeign _) (fun _ => NoForeign.ite valueError_noForeign (ext_noForeign _))))
   case torus =>
     unfold obtainGridOrTorus
     exact NoForeign.bind (argInts_noForeign _) (fun _ => NoForeign.bind (guard_noForeign _) (fun _ =>
-      NoForeign.ite valueError_noForeign (ext_noForeign _)))
+      NoForeign.bind (guard_noForeign _) (fun _ => NoForeign.ite valueError_noForeign (ext_noForeign _))))
   case completeS =>
     unfold obtainCompleteSimple; split
     · exact NoForeign.bind (argInt_noForeign _) (fun _ => NoForeign.bind (guard_noForeign _) (fun _ =>
@@ -729,10 +726,10 @@ theorem construct_kind (c : Cons) (args : List Arg) (e : Option CG) (fuel : Nat)
     · exact valueError_returns
   case grid =>
     unfold obtainGridOrTorus
-    exact Returns.bind (fun _ => Returns.bind (fun _ => Returns.ite valueError_returns hext))
+    exact Returns.bind (fun _ => Returns.bind (fun _ => Returns.bind (fun _ => Returns.ite valueError_returns hext)))
   case torus =>
     unfold obtainGridOrTorus
-    exact Returns.bind (fun _ => Returns.bind (fun _ => Returns.ite valueError_returns hext))
+    exact Returns.bind (fun _ => Returns.bind (fun _ => Returns.bind (fun _ => Returns.ite valueError_returns hext)))
   case completeS =>
     unfold obtainCompleteSimple; split
     · exact Returns.bind (fun _ => Returns.bind (fun _ => Returns.bind (fun _ => Returns.pure _ trivial)))
